@@ -1209,7 +1209,19 @@ func (c *FnCtx) sLen(s *Term) *Term {
 func (c *FnCtx) sSub(s, i, j *Term) *Term {
 	return App("ssub", SStr, s, i, j)
 }
+// sCat builds a concatenation in canonical form: right-nested, without empty operands. Concatenation is associative
+// with the empty string as identity, and the solver has no such axioms (they would loop under E-matching), so the
+// normal form is what lets (a + b) + c and a + (b + c) be the same term.
 func (c *FnCtx) sCat(a, b *Term) *Term {
+	if a.Op == "sempty" && len(a.Args) == 0 {
+		return b
+	}
+	if b.Op == "sempty" && len(b.Args) == 0 {
+		return a
+	}
+	if a.Op == "scat" && len(a.Args) == 2 {
+		return c.sCat(a.Args[0], c.sCat(a.Args[1], b))
+	}
 	return App("scat", SStr, a, b)
 }
 func (c *FnCtx) sAt(s, i *Term) *Term {
